@@ -237,6 +237,26 @@ func (rw *rewriter) file(f *ast.File) {
 		return true
 	})
 
+	// a (switchable) scheduling point at the top of every loop body in lib/query: between two iterations of any
+	// loop - e.g. while a scratch slice is being filled - another worker may run (used by C12 only)
+	if inQuery && !strings.HasSuffix(rw.rel, "goroutine_manager.go") {
+		ast.Inspect(f, func(n ast.Node) bool {
+			var body *ast.BlockStmt
+			switch l := n.(type) {
+			case *ast.ForStmt:
+				body = l.Body
+			case *ast.RangeStmt:
+				body = l.Body
+			}
+			if body != nil {
+				pt := &ast.ExprStmt{X: shimCall("vrt", "Point", &ast.BasicLit{Kind: token.STRING, Value: `"loop"`})}
+				body.List = append([]ast.Stmt{pt}, body.List...)
+				rw.hit("point", "vrt")
+			}
+			return true
+		})
+	}
+
 	// points at the top of named functions
 	for _, d := range f.Decls {
 		fd, ok := d.(*ast.FuncDecl)
